@@ -12,19 +12,19 @@ TRUST = ("Sampling, not proof. Trusted: the harness (sim/src), its toy block cip
 
 # id -> (built, category, technique, text, design_ref, extra note)
 CHECKS = {
- "C01": (False, "exploration", SIM + ": two parties with independent call schedules and backend widths over a fault-free simulated channel; twin-run oracle",
+ "C01": (True, "exploration", SIM + ": two parties with independent call schedules and backend widths over a fault-free simulated channel; twin-run oracle",
          "Seeded search over (mode, cipher, block size, key, IV, message, encrypting schedule, decrypting schedule); decryptor must return the message and unpadded lengths must be preserved. No model: a consistently wrong but invertible mode passes here and fails C02-C06.", "6/C01"),
  "C02": (True, "exploration", SIM + ": seeded call histories (with restart-from-exported-state and clone events, per-call backend width) checked step by step against a reference model",
          "Every operation of a seeded history on cbc/pcbc/ige Encryptor/Decryptor is compared with the defining recurrence (output and exported chaining value), on honest, arbitrary and corrupted ciphertext.", "6/C02"),
- "C03": (False, "exploration", SIM + ": seeded call histories checked step by step against a reference model, plus an invariant over the recorded cipher-seam trace (no decrypt-direction call)",
+ "C03": (True, "exploration", SIM + ": seeded call histories checked step by step against a reference model, plus an invariant over the recorded cipher-seam trace (no decrypt-direction call)",
          "CFB/CFB-8/OFB block-level, one-shot, buffered and byte-stream front ends are compared with the recurrences for every chunking drawn; the seam trace shows only encrypt-direction calls during data processing.", "6/C03"),
- "C04": (False, "exploration", SIM + ": invariant over the recorded cipher-seam trace of seeded apply/seek histories (every block handed to the cipher equals layout(IV, i))",
+ "C04": (True, "exploration", SIM + ": invariant over the recorded cipher-seam trace of seeded apply/seek histories (every block handed to the cipher equals layout(IV, i))",
          "Partial fit: the property itself is a pure function; what simulation adds is the seam observation point, per-call backend width and histories that reach far/wrapping counter values.", "6/C04"),
- "C06": (False, "exploration", SIM + ": invariant over the recorded cipher-seam trace of seeded apply/seek histories against the STB 34.101.31 definition",
+ "C06": (True, "exploration", SIM + ": invariant over the recorded cipher-seam trace of seeded apply/seek histories against the STB 34.101.31 definition",
          "Partial fit (as C04): seam trace E-inputs must be LE(s0+i+1), first event E(IV); parallel keystream path (never run by the suite) is exercised through widths > 1.", "6/C06"),
- "C07": (False, "exploration", SIM + ": twin runs of the real code under different call compositions, call forms and per-call backend widths vs block-at-a-time at width 1",
+ "C07": (True, "exploration", SIM + ": twin runs of the real code under different call compositions, call forms and per-call backend widths vs block-at-a-time at width 1",
          "Output and chaining state after every piece must equal the block-at-a-time run. No model.", "6/C07"),
- "C08": (False, "exploration", SIM + ": twin runs of the real code, seeded chunking of a byte stream vs one call",
+ "C08": (True, "exploration", SIM + ": twin runs of the real code, seeded chunking of a byte stream vs one call",
          "Byte-stream wrappers and buffered CFB under arbitrary piece boundaries (empty pieces, straddling pieces) vs one call; one-shot CFB/CFB-8 prefix preservation.", "6/C08"),
  "C09": (False, "fault_enumeration", SIM + ": crash/restart injection - every cut point of a sampled history is a crash after which only the exported IV state survives",
          "For each sampled scenario all cut points are enumerated: export, drop, rebuild from the exported value, continue under a fresh schedule; output must equal the uninterrupted run and the exported value must equal the observable public chaining value.", "6/C09"),
@@ -32,11 +32,11 @@ CHECKS = {
          "Reported position must equal the tracked integer position or be an error when it does not fit; bytes after a seek equal the keystream from offset 0 (sequentially or via an independent route).", "6/C10"),
  "C11": (False, "fault_enumeration", SIM + ": resource-exhaustion fault - instances are placed a few blocks before the keystream limit and driven across it; error contract plus seam-trace uniqueness invariant",
          "Requests succeed iff they fit; failures leave buffers, position and following bytes untouched; remaining_blocks is exact; no cipher input value ever serves two positions.", "6/C11"),
- "C12": (False, "exploration", SIM + ": twin runs of identical histories, one in place and one buffer-to-buffer into a dirty output buffer",
+ "C12": (True, "exploration", SIM + ": twin runs of identical histories, one in place and one buffer-to-buffer into a dirty output buffer",
          "Partial fit: the buffer form is one more per-step schedule choice; outputs and exported state must agree after every call.", "6/C12"),
  "C13": (False, "fault_enumeration", SIM + ": injected contract-violating calls inside valid histories (error and untouched buffers expected) and a no-panic sweep with every run under catch_unwind",
          "Each rejected-call kind is enumerated over every type that exposes it; valid neighbours must succeed.", "6/C13"),
- "C14": (False, "exploration", SIM + ": replica agreement - several front ends process one logical stream under independent schedules and must never diverge",
+ "C14": (True, "exploration", SIM + ": replica agreement - several front ends process one logical stream under independent schedules and must never diverge",
          "Partial fit: pairwise equality of buffered/block/one-shot CFB, OFB's four faces, CTR/BelT core vs wrapper, cts on whole blocks vs CBC/raw E, key-bytes vs keyed-cipher construction.", "6/C14"),
  "C15": (False, "fault_enumeration", SIM + ": corruption faults injected on the simulated channel between encryptor and decryptor; twin decryptions clean vs corrupted",
          "All corruption positions are enumerated for each sampled message; the difference must have exactly the support that is a theorem for a bijective cipher; keystream independence checked on the seam trace.", "6/C15"),
